@@ -2,5 +2,11 @@
 import CodeLimit.Model.Basic
 import CodeLimit.Model.Regex
 import CodeLimit.Model.Pattern
+import CodeLimit.Model.Token
+import CodeLimit.Model.Lex
+import CodeLimit.Model.Scopes
 import CodeLimit.Spec.Regex
+import CodeLimit.Spec.FindAll
+import CodeLimit.Lemmas.NfaWF
+import CodeLimit.Lemmas.Closure
 import CodeLimit.Props.C13
